@@ -1164,6 +1164,105 @@ theorem afterSchemeFile_spec (idna : Idna) (restp tail : Bytes) (q frag : Option
       have := filePath_spec (c :: r1) q frag hnoq
       simpa using this
 
+/-- the Standard's states behind "scheme:" for a scheme that is not special -/
+def nsSpec (idna : Idna) (scheme rest : Bytes) (fol : Bool) : Option Url :=
+  match rest with
+  | 0x2F :: 0x2F :: rest' => fromAuthority idna scheme rest'
+  | 0x2F :: rest' => some { scheme := scheme, path := pathState scheme [] rest' }
+  | _ => some { scheme := scheme, isOpaque := true, opath := opaquePathState rest fol }
+
+/-- a space at the end of the text in front of '?' / '#' is followed by one of them -/
+theorem last_space_followed (input d pre scheme restp : Bytes) (query frag : Option Bytes)
+    (hsj : preprocess input = d ++ (match frag with | some r => 0x23 :: r | none => []))
+    (hd : d = pre ++ qs query) (htp : takeScheme pre = some (scheme, restp)) :
+    restp.getLast? = some 0x20 → (query.isSome || frag.isSome) = true := by
+  intro hl
+  cases hq : query with
+  | some _ => rfl
+  | none =>
+    cases hfr : frag with
+    | some _ => simp
+    | none =>
+      exfalso
+      subst hq; subst hfr
+      simp only [qs, List.append_nil] at hd hsj
+      obtain ⟨pfx, hp⟩ := takeScheme_suffix pre scheme restp htp
+      have hpl := preprocess_last input
+      rw [hsj, hd, hp] at hpl
+      apply hpl
+      have hne : restp ≠ [] := by intro e; rw [e] at hl; cases hl
+      rw [show pfx ++ 0x3A :: restp = (pfx ++ [0x3A]) ++ restp by simp]
+      rw [List.getLast?_append, hl]
+      rfl
+
+/-- PATH_OR_AUTHORITY, AUTHORITY …, PATH, OPAQUE_PATH for a scheme that is not special -/
+theorem afterSchemeNS_spec (idna : Idna) (scheme restp : Bytes) (query frag : Option Bytes) (hid : ∀ d, HP.IdnaAt idna d)
+    (hns : isSpecialScheme scheme = false) (ht1 : getSchemeType scheme = 1) (hnoq' : (0x3F : UInt8) ∉ restp)
+    (hlastAll : restp.getLast? = some 0x20 → (query.isSome || frag.isSome) = true)
+    (hclAll : ∀ r2, restp = 0x2F :: 0x2F :: r2 → ∀ v cr, authority false (r2 ++ qs query) = some (v, cr) → HS.bracketClean false false v = true) :
+    afterSchemeNS idna scheme frag (restp ++ qs query) =
+      outOf ((nsSpec idna scheme restp (query.isSome || frag.isSome)).map (addQF query frag)) := by
+  have hf := Proto.type_facts scheme
+  unfold nsSpec
+  cases restp with
+  | nil =>
+    rw [afterSchemeNS_opaque _ _ _ _ (by cases query <;> simp [qs])]
+    rw [opaquePath_spec scheme [] query frag hnoq' hns (by simp)]
+    rfl
+  | cons c r1 =>
+    by_cases hc : c = 0x2F
+    · subst hc
+      cases r1 with
+      | nil =>
+        rw [List.cons_append, afterSchemeNS_path _ _ _ _ (by cases query <;> simp [qs])]
+        have hty : PP.TyOf scheme 1 := by rw [← ht1]; exact ⟨hf.2.1, hf.1⟩
+        have := pathQ_spec false scheme 1 hty [] query (by simp)
+        simp only [List.nil_append] at this ⊢
+        rw [this]
+        cases query <;> cases frag <;>
+          simp [outOf, addQF, UR.recOf, Url.isSpecial, hns, Url.pathSerialized, FP.pathText]
+      | cons c2 r2 =>
+        by_cases hc2 : c2 = 0x2F
+        · subst hc2
+          simp only [List.cons_append]
+          rw [afterSchemeNS_auth]
+          have hno2 : (0x3F : UInt8) ∉ r2 := fun h => hnoq' (by simp [h])
+          have hcl := hclAll r2 rfl
+          have := afterSlashes_spec idna false scheme hns r2 query frag hid hno2 hcl
+          rw [ht1] at this
+          rw [this]
+        · simp only [List.cons_append]
+          rw [afterSchemeNS_path _ _ _ _ (by simp; exact fun e => hc2 e)]
+          have hty : PP.TyOf scheme 1 := by rw [← ht1]; exact ⟨hf.2.1, hf.1⟩
+          have hno2 : (0x3F : UInt8) ∉ c2 :: r2 := fun h => hnoq' (List.mem_cons_of_mem _ h)
+          have := pathQ_spec false scheme 1 hty (c2 :: r2) query hno2
+          simp only [List.cons_append] at this
+          rw [this]
+          have hm : (match c2 :: r2 with
+              | 0x2F :: rest' => fromAuthority idna scheme rest'
+              | rest' => some ({ scheme := scheme, path := pathState scheme [] rest' } : Url)) =
+              some ({ scheme := scheme, path := pathState scheme [] (c2 :: r2) } : Url) := by
+            split
+            · rename_i heq; injection heq with e _; exact absurd e hc2
+            · rfl
+          split
+          · rename_i heq; injection heq with _ heq; injection heq with e _; exact absurd e hc2
+          · rename_i heq
+            injection heq with _ heq
+            subst heq
+            cases query <;> cases frag <;>
+              simp [outOf, addQF, UR.recOf, Url.isSpecial, hns, Url.pathSerialized, FP.pathText]
+          · rename_i hx1 hx2
+            exact absurd rfl (hx2 (c2 :: r2))
+    · have hhead : ((c :: r1) ++ qs query).head? ≠ some 0x2F := by simp; exact fun e => hc e
+      rw [afterSchemeNS_opaque _ _ _ _ hhead]
+      have hlast := hlastAll
+      rw [opaquePath_spec scheme (c :: r1) query frag hnoq' hns hlast]
+      split
+      · rename_i heq; injection heq with e _; exact absurd e hc
+      · rename_i heq; injection heq with e _; exact absurd e hc
+      · rfl
+
 /-- **`parse_url_impl<ada::url>(input, nullptr)` from SCHEME_START on = the Standard's basic URL parser**, for every
     input -/
 theorem machine_spec (idna : Idna) (input : Bytes) (hid : ∀ d, HP.IdnaAt idna d)
@@ -1234,86 +1333,15 @@ theorem machine_spec (idna : Idna) (input : Bytes) (hid : ∀ d, HP.IdnaAt idna 
         have hspv : (getSchemeType scheme != 1) = false := by rw [ht1]; rfl
         simp only [h1', ↓reduceIte]
         rw [hspv] at hclean
+        rw [afterSchemeNS_spec idna scheme restp query frag hid hns ht1 hnoq'
+          (last_space_followed input d pre scheme restp query frag hsj.1 hd htp)
+          (by intro r2 hr2 v cr hv
+              subst hr2
+              simp only [authText, Bool.false_eq_true, ↓reduceIte, List.cons_append, hv] at hclean
+              exact hclean)]
         unfold parseCore
         simp only [htp, hnf, Bool.false_eq_true, ↓reduceIte, hns]
-        cases restp with
-        | nil =>
-          rw [afterSchemeNS_opaque _ _ _ _ (by cases query <;> simp [qs])]
-          rw [opaquePath_spec scheme [] query frag hnoq' hns (by simp)]
-          rfl
-        | cons c r1 =>
-          by_cases hc : c = 0x2F
-          · subst hc
-            cases r1 with
-            | nil =>
-              rw [List.cons_append, afterSchemeNS_path _ _ _ _ (by cases query <;> simp [qs])]
-              have hty : PP.TyOf scheme 1 := by rw [← ht1]; exact ⟨hf.2.1, hf.1⟩
-              have := pathQ_spec false scheme 1 hty [] query (by simp)
-              simp only [List.nil_append] at this ⊢
-              rw [this]
-              cases query <;> cases frag <;>
-                simp [outOf, addQF, UR.recOf, Url.isSpecial, hns, Url.pathSerialized, FP.pathText]
-            | cons c2 r2 =>
-              by_cases hc2 : c2 = 0x2F
-              · subst hc2
-                simp only [List.cons_append]
-                rw [afterSchemeNS_auth]
-                have hno2 : (0x3F : UInt8) ∉ r2 := fun h => hnoq' (by simp [h])
-                have hcl : ∀ v cr, authority false (r2 ++ qs query) = some (v, cr) → HS.bracketClean false false v = true := by
-                  intro v cr hv
-                  simp only [authText, Bool.false_eq_true, ↓reduceIte, List.cons_append, hv] at hclean
-                  exact hclean
-                have := afterSlashes_spec idna false scheme hns r2 query frag hid hno2 hcl
-                rw [ht1] at this
-                rw [this]
-              · simp only [List.cons_append]
-                rw [afterSchemeNS_path _ _ _ _ (by simp; exact fun e => hc2 e)]
-                have hty : PP.TyOf scheme 1 := by rw [← ht1]; exact ⟨hf.2.1, hf.1⟩
-                have hno2 : (0x3F : UInt8) ∉ c2 :: r2 := fun h => hnoq' (List.mem_cons_of_mem _ h)
-                have := pathQ_spec false scheme 1 hty (c2 :: r2) query hno2
-                simp only [List.cons_append] at this
-                rw [this]
-                have hm : (match c2 :: r2 with
-                    | 0x2F :: rest' => fromAuthority idna scheme rest'
-                    | rest' => some ({ scheme := scheme, path := pathState scheme [] rest' } : Url)) =
-                    some ({ scheme := scheme, path := pathState scheme [] (c2 :: r2) } : Url) := by
-                  split
-                  · rename_i heq; injection heq with e _; exact absurd e hc2
-                  · rfl
-                split
-                · rename_i heq; injection heq with _ heq; injection heq with e _; exact absurd e hc2
-                · rename_i heq
-                  injection heq with _ heq
-                  subst heq
-                  cases query <;> cases frag <;>
-                    simp [outOf, addQF, UR.recOf, Url.isSpecial, hns, Url.pathSerialized, FP.pathText]
-                · rename_i hx1 hx2
-                  exact absurd rfl (hx2 (c2 :: r2))
-          · have hhead : ((c :: r1) ++ qs query).head? ≠ some 0x2F := by simp; exact fun e => hc e
-            rw [afterSchemeNS_opaque _ _ _ _ hhead]
-            have hlast : (c :: r1).getLast? = some 0x20 → (query.isSome || frag.isSome) = true := by
-              intro hl
-              cases hq : query with
-              | some _ => rfl
-              | none =>
-                cases hfr : frag with
-                | some _ => simp
-                | none =>
-                  exfalso
-                  subst hq; subst hfr
-                  simp only [qs, List.append_nil] at hd hsj
-                  obtain ⟨pfx, hp⟩ := takeScheme_suffix pre scheme (c :: r1) htp
-                  have hpl := preprocess_last input
-                  rw [hsj.1, hd, hp] at hpl
-                  apply hpl
-                  rw [show pfx ++ 0x3A :: c :: r1 = (pfx ++ [0x3A]) ++ (c :: r1) by simp]
-                  rw [List.getLast?_append, hl]
-                  rfl
-            rw [opaquePath_spec scheme (c :: r1) query frag hnoq' hns hlast]
-            split
-            · rename_i heq; injection heq with e _; exact absurd e hc
-            · rename_i heq; injection heq with e _; exact absurd e hc
-            · rfl
+        rfl
       · -- special
         have hsp : isSpecialScheme scheme = true := by
           rw [← hf.1]
